@@ -8,6 +8,7 @@
 -/
 import EG.Model.JoinGuards
 import EG.Props.C02.JoinsBBox
+import EG.Props.C02.JoinsBBoxAlign
 namespace EG.C02.GuardBitsSpec
 open EG EG.Joins EG.C02.JoinsBBox
 
@@ -120,5 +121,19 @@ theorem triOutlineGuard_bit_iff (t : Tri) (style : TriStyle) :
 theorem triTopGuard_bit_iff (t : Tri) : GuardBits.triTopGuard t = true ↔ TriTopGuard t := by
   unfold GuardBits.triTopGuard TriTopGuard
   simp
+
+/-- For an Outside stroke (`i32` vertices) the driver's bit for `TriStrokeGuard` is the guard
+`TriOutsideStrokeGuard` of `triangle_outside_stroke_in_bounding_box_partial`
+(EG/Props/C02/JoinsBBoxAlign.lean): the vertex clause holds by proof. -/
+theorem triOutsideStrokeGuard_bit_iff (t : Tri) (style : TriStyle)
+    (hal : style.strokeAlignment = .outside) (hi : TriI32 t) :
+    GuardBits.triStrokeGuard t style = true ↔ TriOutsideStrokeGuard t style :=
+  (triStrokeGuard_bit_iff t style).trans (triStrokeGuard_outside_iff t style hal hi)
+
+/-- Where the driver's bit for `TriOutlineGuard` is set on an Inside stroke, the weaker guard
+`TriInsideGuard` of `triangle_inside_in_bounding_box_of_inner_corners` holds. -/
+theorem triInsideGuard_of_bit (t : Tri) (style : TriStyle) (hal : style.strokeAlignment = .inside)
+    (h : GuardBits.triOutlineGuard t style = true) : TriInsideGuard t style.strokeWidth :=
+  triInsideGuard_of_outline t style hal ((triOutlineGuard_bit_iff t style).mp h)
 
 end EG.C02.GuardBitsSpec
